@@ -118,6 +118,18 @@ func streamCorpus() []CFrame {
 	add("bad.unsubscribe.cutfilter", unhex("a2050001000009"), 10)
 	add("type0.body", unhex("0003010203"), 0)
 	add("pingreq.nonminimal-rl", unhex("c08000"), 12)
+	// non-minimal and over-long remaining-length fields around real bodies
+	// (whether they are accepted is the decoder's business; the stream-level
+	// properties only ask that the answer does not depend on the reader,
+	// the fragmentation or the history)
+	pb := mustEncode(&spec.Packet{Type: 3, Topic: []byte("a/b"), Payload: []byte("hi")}, spec.Form{})
+	add("publish.nonminimal-rl2", append([]byte{pb[0], pb[1] | 0x80, 0x00}, pb[2:]...), 3)
+	add("publish.nonminimal-rl4", append([]byte{pb[0], pb[1] | 0x80, 0x80, 0x80, 0x00}, pb[2:]...), 3)
+	ca := mustEncode(minimalPacket(2), spec.Form{})
+	add("connack.nonminimal-rl3", append([]byte{ca[0], ca[1] | 0x80, 0x80, 0x00}, ca[2:]...), 2)
+	add("pingreq.overlong-rl5", unhex("c08080808000"), 12)
+	add("connack.overlong-rl5", append([]byte{ca[0], ca[1] | 0x80, 0x80, 0x80, 0x80, 0x00}, ca[2:]...), 2)
+	add("publish.overlong-rl5", append([]byte{pb[0], pb[1] | 0x80, 0x80, 0x80, 0x80, 0x00}, pb[2:]...), 3)
 	add("publish.payload", mustEncode(&spec.Packet{Type: 3, Topic: []byte("a/b"), Payload: []byte("hi!")}, spec.Form{}), 3)
 	corpusCache = out
 	return out
